@@ -72,7 +72,20 @@ def m_cl22_listed(v, params):
         any(b.startswith("cl22") for b in v["builds"]) and source_hash(v["case"]) in params["sources"]
 
 
-MATCHERS = {"cl22_listed": m_cl22_listed, "cl22_name_leak": m_cl22_name_leak, "at_pattern_nested_let": m_at_pattern_nested_let,
+def m_macro_if_cl23(v, params):
+    # cl23 / cl23.1 / cl24: an (if ..) that comes out of a user macro's quasi-quoted template gets the constant 0x40
+    # (the byte '@') as its environment, so a branch that refers to a variable fails with "path into atom"
+    f = feats(v["case"])
+    new = {"cl23", "cl23+O", "cl231", "cl231+O", "cl24", "cl24+O"}
+    if not f.get("macros") or not any(b in new for b in v["builds"]):
+        return False
+    templates = re.findall(r"\(defmacro \w+ \([^)]*\) \(qq (.*?)\)\) \((?:defun|defun-inline|defmacro|defconstant)|\(defmacro \w+ \([^)]*\) \(qq (.*)", v["case"]["source"])
+    has_if = "(if " in v["case"]["source"].split("(defmacro", 1)[-1]
+    failing = any(isinstance(o, list) and o and o[0] == "err" for b in v["builds"] if b in new for o in (v["observed"].get(b) or []))
+    return has_if and failing
+
+
+MATCHERS = {"macro_if_cl23": m_macro_if_cl23, "cl22_listed": m_cl22_listed, "cl22_name_leak": m_cl22_name_leak, "at_pattern_nested_let": m_at_pattern_nested_let,
             "legacy_zero_leading": m_legacy_zero_leading}
 
 
